@@ -337,4 +337,5 @@ int __wrap_usleep(unsigned us) { sched_point(OP_SLEEP, NULL, 2); vclock_ms += (u
 
 /* ------------------------------------------------------------------ zygote */
 extern void p_libsys_init(void);
-void mcrt_zygote_init(void) { p_libsys_init(); }
+void mc_harness_zygote(void) __attribute__((weak));
+void mcrt_zygote_init(void) { p_libsys_init(); if (mc_harness_zygote) mc_harness_zygote(); }
